@@ -235,3 +235,28 @@ fn drop_oversized_k(k: u8, l0: u8, l1: u8, max_payload: usize) -> u32 {
 // NOTE: `drop_oversized` with two queued datagrams of which one is oversized (VecDeque::retain over a
 // data-dependent queue shape) ran CBMC out of its 10 GB budget after 90 s even with the order fixed per
 // branch - outside the claim (seed C13-4 is therefore not detected).
+
+// NOTE: `DatagramState::write` under CBMC (VecDeque pop/push + Vec::extend_from_slice with symbolic lengths)
+// ran out of the 10 GB budget after 90 s; it is decided by the E2 query `e2_dgram_write` instead.
+
+/// Native replay body of E2 query `e2_dgram_write` (C16 / C13, "never oversized"): one queued datagram of
+/// `l0` bytes, `used` bytes already in the packet buffer, size limit `max_size`: a frame is written exactly
+/// when the WHOLE frame (type byte, length field, payload) fits under the limit; otherwise nothing changes.
+pub fn write_native(l0: u8, used: u8, max_size: u16) -> u32 {
+    let (used, max_size) = (used as usize, max_size as usize);
+    let mut s = mk_outgoing(1, l0, 0, 0);
+    let mut buf: Vec<u8> = vec![0xee; used];
+    let frame = 1 + (if l0 < 64 { 1 } else { 2 }) + l0 as usize;
+    let wrote = s.write(&mut buf, max_size);
+    assert!(buf.len() <= max_size || buf.len() == used, "DATAGRAM frame written past the size limit: {} > {}", buf.len(), max_size);
+    assert!(wrote == (used + frame <= max_size), "written={} although the frame needs {} of {} bytes", wrote, used + frame, max_size);
+    if wrote {
+        assert!(buf.len() == used + frame);
+        assert!(s.outgoing.is_empty() && s.outgoing_total == 0);
+        1
+    } else {
+        assert!(buf.len() == used);
+        assert!(s.outgoing.len() == 1 && s.outgoing_total == l0 as usize);
+        2
+    }
+}
